@@ -24,8 +24,17 @@ namespace detail {
 template <typename T1, typename T2>
 using cond_t = decltype(false ? declval<T1>() : declval<T2>());
 
+// C++20: if "false ? declval<D1>() : declval<D2>()" is ill-formed, try it with "D1 const&" and "D2 const&"
 template <typename T1, typename T2, typename = void>
-struct common_type_2_impl { };
+struct common_type_2_cref { };
+
+template <typename T1, typename T2>
+struct common_type_2_cref<T1, T2, void_t<cond_t<T1 const&, T2 const&>>> {
+    using type = decay_t<cond_t<T1 const&, T2 const&>>;
+};
+
+template <typename T1, typename T2, typename = void>
+struct common_type_2_impl : common_type_2_cref<T1, T2> { };
 
 template <typename T1, typename T2>
 struct common_type_2_impl<T1, T2, void_t<cond_t<T1, T2>>> {
